@@ -76,6 +76,9 @@ class Packet:
         try:
             self.packet_type = int(ep[0:1])
         except TypeError:
+            # (the legacy form: a packet without payload given as a number)
+            if type(ep) is not int:
+                raise ValueError('Invalid packet.')
             self.packet_type = ep
             ep = ''
         self.namespace = None
